@@ -15,10 +15,13 @@
 
 #include <pugixml.hpp>
 
+#include <algorithm>
+#include <filesystem>
 #include <string>
 #include <string_view>
 #include <optional>
 #include <cstring>
+#include <system_error>
 #include <vector>
 
 namespace sbepp::sbeppc
@@ -29,9 +32,15 @@ class schema_parser
 {
 public:
     schema_parser(
-        const std::string& path, ireporter& reporter, ifs_provider& fs_provider)
-        : reporter{&reporter}, fs_provider{&fs_provider}
+        const std::string& path,
+        ireporter& reporter,
+        ifs_provider& fs_provider,
+        std::vector<std::string> including_files = {})
+        : reporter{&reporter},
+          fs_provider{&fs_provider},
+          open_files{std::move(including_files)}
     {
+        open_files.push_back(normalize_path(path));
         const auto file_data = this->fs_provider->read_file(path);
         locations = location_manager{path, file_data};
         parse_xml(file_data);
@@ -63,6 +72,15 @@ private:
     sbe::message_schema message_schema;
     unique_set<std::string> unique_message_names;
     unique_set<message_id_t> unique_message_ids;
+    // this file and the files which include it, outermost first
+    std::vector<std::string> open_files;
+
+    static std::string normalize_path(const std::string& path)
+    {
+        std::error_code ec;
+        const auto normalized = std::filesystem::weakly_canonical(path, ec);
+        return ec ? path : normalized.string();
+    }
 
     enum class ordered_member_type
     {
@@ -135,7 +153,18 @@ private:
     void parse_include(const pugi::xml_node root)
     {
         const auto path = get_required_non_empty_string(root, "href");
-        auto parser = schema_parser{path, *reporter, *fs_provider};
+        if(std::find(
+               std::begin(open_files),
+               std::end(open_files),
+               normalize_path(path))
+           != std::end(open_files))
+        {
+            throw_error(
+                "{}: cyclic inclusion of `{}`",
+                locations.find(root.offset_debug()),
+                path);
+        }
+        auto parser = schema_parser{path, *reporter, *fs_provider, open_files};
         parser.parse_schema_content();
 
         const auto& schema = parser.get_message_schema();
